@@ -68,7 +68,7 @@ def get_parts(mod: Any, tier: str) -> Any:
     if tier == "thorough":
         scale = max(1, int(os.environ.get("VERIF_THOROUGH_SCALE", "3") or 3))
         for p in parts:
-            if p.kind in ("given", "machine") and p.examples:
+            if p.kind in ("given", "machine", "covguided") and p.examples:
                 p.examples = int(p.examples) * scale
                 p.soft_deadline_s = max(int(p.soft_deadline_s or 0), 3600)
     return parts
@@ -81,8 +81,15 @@ def shard_main(argv: List[str]) -> int:
 
     logging.disable(logging.CRITICAL)
     rec = Recorder()
+    os.environ["VERIF_SHARD_OUT"] = out_path
     try:
-        mod = load_mod(pid)
+        if os.environ.get("VERIF_COVGUIDED") == "1" and engine.ensure_atheris():
+            import atheris
+
+            with atheris.instrument_imports(include=["taskiq"], enable_loader_override=False):
+                mod = load_mod(pid)
+        else:
+            mod = load_mod(pid)
         part = next(p for p in get_parts(mod, tier) if p.name == part_name)
         ctx = Ctx(pid=pid, part=part, shard=shard, nshards=nshards, seed=derive_seed(seed, pid, part_name, shard),
                   tier=tier, rec=rec, mod=mod, known_open=open_findings(pid))
@@ -203,6 +210,8 @@ def check_main(pid: str, tier: str) -> int:
         for j in range(part.shards):
             outp = os.path.join(tmpdir, f"{part.name}-{j}.json")
             jobs.append((part, j, outp))
+    if any(p.kind == "covguided" for p in parts):
+        engine.ensure_atheris()
     env = dict(os.environ)
     env["PYTHONHASHSEED"] = "0"
     env["PYTHONPATH"] = ROOT + os.pathsep + _REPO + (os.pathsep + env["PYTHONPATH"] if env.get("PYTHONPATH") else "")
@@ -237,7 +246,8 @@ def check_main(pid: str, tier: str) -> int:
             part, j, outp = pending.pop(0)
             proc = subprocess.Popen(
                 [sys.executable, "-m", "vt.run", "--shard", pid, part.name, str(j), str(part.shards), tier, str(seed), outp],
-                cwd=ROOT, env=env, stdout=subprocess.DEVNULL, stderr=subprocess.PIPE if False else None)
+                cwd=ROOT, env=dict(env, VERIF_COVGUIDED="1") if part.kind == "covguided" else env, stdout=subprocess.DEVNULL,
+                stderr=subprocess.DEVNULL if part.kind == "covguided" else None)        # libFuzzer / atheris chatter; shard problems travel in the shard's output file
             running.append((proc, part, j, outp, time.time()))
         reap(True)
     try:
